@@ -212,7 +212,7 @@ func hostKind(h string) string {
 
 func TestCheck(t *testing.T) {
 	r := vp.New("C20", "exploration",
-		"URL round trip: nested loops over scheme x host x port x path (paths: every sequence of <=N symbols over all printable ASCII characters, 'é', '%2F', '%25', '//' after a leading '/'); URLs given as text and parsed with net/url: every printable ASCII character and 'é' written as a percent-escape in upper- and lower-case hex, alone, inside segments and in ordered pairs (the decoded path is what has to survive); a case is non-trivial when it has a port or a path; distinct = distinct (scheme,host,port,path). Helpers: FindHTTPAddrs for every address made of 6 prefixes x {http, https, ws, wss, none} x every sequence of <=3 trailing components over {http-path (2 values), p2p, p2p-circuit}, alone and in 3 list shapes; every list of length <=4 over a 27-address alphabet (public, private, loopback, unspecified, localhost; the IP followed by tcp, udp, sctp, tls, http or nothing; http after tls/sni and before /p2p; ws / wss, which are not http) incl. nil and duplicates, all pairs of lists of length <=3 for equality; what FindHTTPAddrs and FilterPublic selected must read the same after the caller has overwritten its own list.",
+		"URL round trip: nested loops over scheme x host x port x path (paths: every sequence of <=N symbols over all printable ASCII characters, 'é', '%2F', '%25', '//' after a leading '/'); URLs given as text and parsed with net/url: every printable ASCII character and 'é' written as a percent-escape in upper- and lower-case hex, alone, inside segments and in ordered pairs (the decoded path is what has to survive); a case is non-trivial when it has a port or a path; distinct = distinct (scheme,host,port,path). Helpers: ParsePeers for every list of <=4 over seven (address, peer) pairs of three peers against an independent grouping, with the URLs recovered from each peer's HTTP addresses; FindHTTPAddrs for every address made of 6 prefixes x {http, https, ws, wss, none} x every sequence of <=3 trailing components over {http-path (2 values), p2p, p2p-circuit}, alone and in 3 list shapes; every list of length <=4 over a 27-address alphabet (public, private, loopback, unspecified, localhost; the IP followed by tcp, udp, sctp, tls, http or nothing; http after tls/sni and before /p2p; ws / wss, which are not http) incl. nil and duplicates, all pairs of lists of length <=3 for equality; what FindHTTPAddrs and FilterPublic selected must read the same after the caller has overwritten its own list.",
 		"URLs are built as url.URL{Scheme,Host,Path} values, and (section 2b) parsed from text; hosts are limited to 3 IPv4, 3 IPv6 (no zone, not v4-mapped) and 3 DNS names",
 		"IPv6 hosts are compared as IP values, not as text",
 		"FilterPublic: link-local and other special ranges that are neither loopback, private (net.IP.IsPrivate) nor unspecified are accepted either way; nothing is required of nil entries",
@@ -518,8 +518,117 @@ func checkHTTPPosition(r *vp.Recorder) {
 	}
 }
 
+// checkParsePeers: the helper that turns a list of p2p address strings
+// (".../p2p/<peer>", as publishers are configured on a command line) into one
+// address list per peer: every list of <= 4 entries over an alphabet of seven
+// (address, peer) pairs of three peers (repeats included, in every order, so
+// that a peer's addresses are adjacent, interleaved with another peer's, and
+// duplicated), against an independent grouping; and what is selected from each
+// peer's list as HTTP addresses converts back to the URLs that were put in.
+func checkParsePeers(r *vp.Recorder) {
+	peers := []string{"12D3KooWBahVhXpN2F6NMjC4BDSNXLWnGtjHwcVbR2qJUK2xWx1J", "12D3KooWQYhTNQdmr3ArTeUHRYzFg94BKyTkoWBDWez9kSCVe2Xo", "QmYyQSo1c1Ym7orWxLYvCrM2EmxFTANf8wXmmE7DWjhx5N"}
+	type sym struct {
+		addr string
+		peer int
+		url  string // for http addresses: the URL it stands for
+	}
+	alpha := []sym{
+		{"/dns/a.example.org/tcp/443/https/http-path/pub", 0, "https://a.example.org:443/pub"},
+		{"/ip6/2001:db8::2/tcp/3104/http", 0, "http://[2001:db8::2]:3104"},
+		{"/ip4/203.0.113.7/tcp/9000", 0, ""},
+		{"/dns/b.example.org/tcp/443/https/http-path/pub", 1, "https://b.example.org:443/pub"},
+		{"/ip4/198.51.100.3/tcp/80/http", 1, "http://198.51.100.3:80"},
+		{"/dns4/c.example.org/tcp/8080/tls/http", 2, "https://c.example.org:8080"},
+		{"/ip4/203.0.113.9/udp/4001/quic-v1", 2, ""},
+	}
+	var lists [][]int
+	var gen func(cur []int)
+	gen = func(cur []int) {
+		lists = append(lists, append([]int(nil), cur...))
+		if len(cur) == 4 {
+			return
+		}
+		for i := range alpha {
+			gen(append(cur, i))
+		}
+	}
+	gen(nil)
+	for _, l := range lists {
+		key := fmt.Sprintf("parse-peers|%v", l)
+		if !r.Mine(key) {
+			continue
+		}
+		r.Eval(key, len(l) > 1)
+		var in []string
+		want := map[string][]string{}
+		wantURLs := map[string][]string{}
+		for _, i := range l {
+			a := alpha[i]
+			in = append(in, a.addr+"/p2p/"+peers[a.peer])
+			want[peers[a.peer]] = append(want[peers[a.peer]], a.addr)
+			if a.url != "" {
+				wantURLs[peers[a.peer]] = append(wantURLs[peers[a.peer]], a.url)
+			}
+		}
+		var got []peer.AddrInfo
+		var err error
+		if p, m := vp.Guard(func() { got, err = mautil.ParsePeers(append([]string(nil), in...)) }); p {
+			r.Violation("ParsePeers:panic", key, m, nil)
+			continue
+		}
+		if err != nil {
+			r.Violation("ParsePeers:error", key, fmt.Sprintf("ParsePeers(%q): %v", in, err), nil)
+			continue
+		}
+		canon := func(l []string) string { c := append([]string(nil), l...); sort.Strings(c); return strings.Join(c, " ") }
+		seen := map[string]bool{}
+		bad := ""
+		for _, ai := range got {
+			id := ai.ID.String()
+			if seen[id] {
+				bad = "peer " + id + " appears twice in the result"
+				break
+			}
+			seen[id] = true
+			var as []string
+			for _, a := range ai.Addrs {
+				as = append(as, a.String())
+			}
+			if canon(as) != canon(want[id]) {
+				bad = fmt.Sprintf("peer %s got the addresses %q, its addresses in the list are %q", id, as, want[id])
+				break
+			}
+			// what a sync client makes of the peer's list
+			var urls []string
+			for _, h := range mautil.FindHTTPAddrs(ai.Addrs) {
+				u, err := maurl.ToURL(h)
+				if err != nil {
+					bad = fmt.Sprintf("peer %s: %s does not convert to a URL: %v", id, h, err)
+					break
+				}
+				urls = append(urls, u.String())
+			}
+			if bad == "" && canon(urls) != canon(wantURLs[id]) {
+				bad = fmt.Sprintf("peer %s: the HTTP addresses of its list give the URLs %q, the list was made for %q", id, urls, wantURLs[id])
+			}
+			if bad != "" {
+				break
+			}
+		}
+		if bad == "" && len(seen) != len(want) {
+			bad = fmt.Sprintf("%d peers in the result, %d in the list", len(seen), len(want))
+		}
+		if bad != "" {
+			r.Violation("ParsePeers:addresses-not-grouped-by-their-peer", key, fmt.Sprintf("ParsePeers(%q): %s", in, bad), nil)
+			continue
+		}
+		r.Outcome("parse-peers-ok")
+	}
+}
+
 func checkHelpers(r *vp.Recorder) {
 	checkHTTPPosition(r)
+	checkParsePeers(r)
 	n := len(addrAlphabet)
 	mas := make([]multiaddr.Multiaddr, n)
 	for i, a := range addrAlphabet {
